@@ -109,18 +109,17 @@ def generate(rng, seed, index, tier):
                 op["faults"] = [{"dev": "eval", "comp": str(rng.choice(["obj", "grad"])), "at_x0": True, "kind": "nan"}]
             elif r < 0.4:
                 op["faults"] = [{"dev": "eval", "comp": str(rng.choice(["obj", "grad", "hess"])), "at": int(rng.integers(2, 30)), "kind": "nan"}]
-        if "t0" not in op["clock"]:
-            # virtual time goes on between the solves of a process; the isolated twin is given the same
-            # absolute clock plan, so only the *origin* an implementation measures from can differ
-            op["clock"] = dict(op["clock"], t0=gen.T0 + 1000.0 * len(hist))
         hist.append(op)
         last = op
     w = gen.base_world(seed, ID, index, None, [], [], {}, case={"problems": problems, "params_list": plist, "history": hist})
     return w
 
 
-def _op_world(world, op, solver_def):
-    """Stand-alone world for one solve op."""
+def _op_world(world, op, solver_def, shift=0.0):
+    """Stand-alone world for one solve op.  `shift` moves the op's clock plan in absolute virtual
+    time (virtual time goes on between the solves of a process; the isolated twin runs the same
+    relative plan right after its process started).  Within one binade of doubles all clock
+    values live on one grid, so the shift changes no difference of two reads."""
     c = world["case"]
     prm = c["params_list"][solver_def["prm"]]
     params = "default" if prm == "default" else dict(prm)
@@ -132,7 +131,7 @@ def _op_world(world, op, solver_def):
         "y0": op["y0"],
         "params": params if params != "default" else {},
         "params_default": params == "default",
-        "clock": op.get("clock"),
+        "clock": dict(op.get("clock") or {}, t0=gen.T0 + shift),
         "obs": op.get("obs", {}),
         "faults": op.get("faults", []),
         "solver": "homotopy",
@@ -187,7 +186,7 @@ def case(world):
             continue
         i += 1
         d = defs[op["sid"]]
-        w = _op_world(world, op, d)
+        w = _op_world(world, op, d, shift=1000.0 * (i + 1))
         if d["pid"] not in problems:
             problems[d["pid"]] = SimProblem(c["problems"][d["pid"]])
         prob = problems[d["pid"]]
